@@ -3,8 +3,9 @@
    Wrap*.v = models of the logic the momo::stdish wrappers add on top of the nested momo containers.
    Both are run (extracted) against the real momo::stdish AND libstdc++ containers on every check. *)
 From Coq Require Import ZArith List Permutation.
-From C06 Require Import Spec SpecProofs WrapOrdered WrapEq WrapErase History IterLoop GenRefine.
-From C06 Require Gen_USetErase Gen_UMapErase Gen_UMMapErase Gen_SetHint Gen_MSetHint Gen_MapFind Gen_MMapFind.
+From C06 Require Import Spec SpecProofs WrapOrdered WrapEq WrapErase History IterLoop GenRefine GenEq GenMisc.
+From C06 Require Gen_USetErase Gen_UMapErase Gen_UMMapErase Gen_SetHint Gen_MSetHint Gen_MapFind Gen_MMapFind Gen_MapAt Gen_SetEqr Gen_UMapCreate Gen_SetCreate.
+From MomoCommon Require Import GenPrelude.
 Import ListNotations.
 
 (* ===== (1) the L0 specs satisfy the std contract ===== *)
@@ -279,6 +280,81 @@ Theorem C06_gen_multimap_find_same_code :
   Gen_MMapFind.pvFind_hint = Gen_MapFind.pvFind_hint /\ Gen_MMapFind.pvFind_null = Gen_MapFind.pvFind_null.
 Proof. exact mmap_find_same_code. Qed.
 Print Assumptions C06_gen_multimap_find_same_code.
+
+(* ===== (2e) operator== of the unordered wrappers, REGENERATED from the headers (range-for as a first-return fold) ===== *)
+
+(* unordered_set operator== as translated: for ANY key-equivalence `cls` (possibly coarser than element equality) and containers
+   with one element per class: true iff the two hold the same elements.  Reverting b19ae26 makes this false ({1005} vs {1006}). *)
+Theorem C06_gen_unordered_set_eq_iff_permutation : forall (cls : Z -> Z) (l r : list Z) (endv : Z),
+  NoDup (map cls l) -> NoDup (map cls r) -> ~ In endv r ->
+  (gen_uset_eq cls l r endv = true <-> Permutation l r).
+Proof. exact gen_uset_eq_iff. Qed.
+Print Assumptions C06_gen_unordered_set_eq_iff_permutation.
+
+(* unordered_map operator== as translated (keys compared by class for the lookup, then key and mapped value by ==) *)
+Theorem C06_gen_unordered_map_eq_iff_permutation : forall (cls kf vf : Z -> Z),
+  (forall a b, kf a = kf b -> vf a = vf b -> a = b) ->
+  forall (l r : list Z) (endv : Z),
+  NoDup (map (fun y => cls (kf y)) l) -> NoDup (map (fun y => cls (kf y)) r) -> ~ In endv r ->
+  (gen_umap_eq cls kf vf l r endv = true <-> Permutation l r).
+Proof. exact gen_umap_eq_iff. Qed.
+Print Assumptions C06_gen_unordered_map_eq_iff_permutation.
+
+(* unordered_multimap operator== as translated == the class-aware hand model, and hence the permutation theorem: reverting
+   7146119 (key-count test), 4339d66 (key == test) or replacing is_permutation changes Gen_UMMapEq.v and breaks these *)
+Theorem C06_gen_unordered_multimap_eq_refines : forall cls l r, gen_ummap_eq cls l r = mm_eqc cls l r.
+Proof. exact gen_ummap_eq_refines. Qed.
+Print Assumptions C06_gen_unordered_multimap_eq_refines.
+
+Theorem C06_gen_unordered_multimap_eq_iff_pairs_permutation : forall cls l r,
+  NoDup (map (fun kv => cls (fst kv)) l) -> NoDup (map (fun kv => cls (fst kv)) r) ->
+  (gen_ummap_eq cls l r = true <-> Permutation (mm_pairs l) (mm_pairs r)).
+Proof. exact gen_ummap_eq_iff. Qed.
+Print Assumptions C06_gen_unordered_multimap_eq_iff_pairs_permutation.
+
+Theorem C06_unordered_set_eq_prefix_refuted : exists cls l r, NoDup (map cls l) /\ NoDup (map cls r) /\
+  uset_eq_prefix cls l r = true /\ ~ Permutation l r.
+Proof. exact uset_eq_prefix_refuted. Qed.
+Print Assumptions C06_unordered_set_eq_prefix_refuted.
+
+Theorem C06_unordered_multimap_eq_key_prefix_refuted : exists cls l r,
+  NoDup (map (fun kv => cls (fst kv)) l) /\ NoDup (map (fun kv => cls (fst kv)) r) /\
+  forallb (mm_eqc_key_prefix cls r) l = true /\ mm_count l = mm_count r /\ ~ Permutation (mm_pairs l) (mm_pairs r).
+Proof. exact mm_eqc_prefix_4339d66_refuted. Qed.
+Print Assumptions C06_unordered_multimap_eq_key_prefix_refuted.
+
+(* ===== (2f) further regenerated decisions ===== *)
+
+(* map::at as translated throws out_of_range exactly when the key is absent, otherwise returns the mapped value of find(key) *)
+Theorem C06_gen_map_at_throws_iff_absent : forall l k, sorted true l ->
+  (Gen_MapAt.at_const Z.eqb (o_end l) (a_find l) (a_mapped l) k = Exn <-> ord_count k l = 0).
+Proof. exact map_at_throws_iff_absent. Qed.
+Print Assumptions C06_gen_map_at_throws_iff_absent.
+
+Theorem C06_gen_map_at_refines : forall l k,
+  Gen_MapAt.at_const Z.eqb (o_end l) (a_find l) (a_mapped l) k =
+  if ord_find k l =? length l then Exn else Ok (snd (nth (ord_find k l) l dflt)).
+Proof. exact gen_map_at_refines. Qed.
+Print Assumptions C06_gen_map_at_refines.
+
+(* set/multiset::equal_range as translated (multiKey symbolic) = [lower_bound, upper_bound) of the specification *)
+Theorem C06_gen_set_equal_range_refines : forall l multi k, sorted multi l ->
+  Gen_SetEqr.equal_range multi Z.eqb (o_end l) o_next (o_deref l) o_less (o_lb l) (o_ub l) k =
+  (Z.of_nat (lower_bound k l), Z.of_nat (upper_bound k l)).
+Proof. exact gen_set_equal_range_refines. Qed.
+Print Assumptions C06_gen_set_equal_range_refines.
+
+(* allocator-extended move construction: the nested container is taken over iff the allocators compare equal (std rule);
+   unordered_map::pvCreateMap and set::pvCreateSet are the same code *)
+Theorem C06_gen_create_steals_iff_equal_allocators : forall alloc_eqb alloc_of steal right alloc fresh,
+  (forall x, steal x <> fresh) ->
+  (Gen_UMapCreate.pvCreateMap alloc_eqb alloc_of steal right alloc fresh = steal right <-> alloc_eqb (alloc_of right) alloc = true).
+Proof. exact create_steals_iff_equal_allocators. Qed.
+Print Assumptions C06_gen_create_steals_iff_equal_allocators.
+
+Theorem C06_gen_set_create_same_code : Gen_SetCreate.pvCreateSet = Gen_UMapCreate.pvCreateMap.
+Proof. exact gen_set_create_same_code. Qed.
+Print Assumptions C06_gen_set_create_same_code.
 
 (* ===== (3) non-vacuity: the pre-fix shapes of the three repaired functions violate the same statements ===== *)
 Theorem C06_unordered_erase_range_prefix_refuted : exists l first last ps,
